@@ -16,6 +16,8 @@ fn space_for(tier: Tier) -> (Space, usize) {
     match tier {
         Tier::Quick => {
             s.ast("K0", 5, 128).ast("Q", 3, 128).ast("CL", 3, 128).ast("AN", 3, 128);
+            s.ast_range("LP", 1, 3, 64, 5);
+            s.ast_range("ALT", 1, 3, 64, 4);
             (s, 3)
         }
         Tier::Thorough => {
@@ -23,6 +25,8 @@ fn space_for(tier: Tier) -> (Space, usize) {
             // one more level of depth on shorter inputs, restricted to patterns
             // without a quantifier over a possibly-empty body
             s.ast_range("K0", 6, 6, 256, 3);
+            s.ast_range("LP", 1, 4, 64, 6);
+            s.ast_range("ALT", 1, 4, 64, 4);
             (s, 4)
         }
     }
@@ -58,7 +62,7 @@ impl Check for C01 {
             space::SegKind::Ast { scope, .. } => crate::gen::scope(scope).sigma,
             _ => unreachable!(),
         };
-        let restricted = seg.param > 0;
+        let restricted = seg.param > 0 && scope_name.starts_with("K0");
         let maxlen = if seg.param > 0 { seg.param } else { maxlen };
         let inputs = all_strings(&sigma, maxlen);
         let inputs_c: Vec<Vec<char>> = inputs.iter().map(|s| s.chars().collect()).collect();
